@@ -359,13 +359,18 @@ bool TimeZoneInfo::ExtendTransitions() {
   // (well, at least the first transition in the 401st year) so that the
   // end of the 400th year is mapped back to an extended year. And first
   // we may also need two additional transitions for the current year.
-  transitions_.reserve(transitions_.size() + 2 + 401 * 2);
+  transitions_.reserve(transitions_.size() + 2 + 402 * 2);
   extended_ = true;
 
   const Transition& last(transitions_.back());
   const std::int_fast64_t last_time = last.unix_time;
   const TransitionType& last_tt(transition_types_[last.type_index]);
   last_year_ = LocalTime(last_time, last_tt).cs.year();
+  const year_t limit = last_year_ + 401;
+  // Start with the rules of the preceding year, as one of its transitions
+  // may still be pending: a late-December date with a transition time of
+  // up to a week lands in the following January.
+  last_year_ -= 1;
   bool leap_year = IsLeap(last_year_);
   const civil_second jan1(last_year_);
   std::int_fast64_t jan1_time = jan1 - civil_second();
@@ -373,7 +378,7 @@ bool TimeZoneInfo::ExtendTransitions() {
 
   Transition dst = {0, dst_ti, civil_second(), civil_second()};
   Transition std = {0, std_ti, civil_second(), civil_second()};
-  for (const year_t limit = last_year_ + 401;; ++last_year_) {
+  for (;; ++last_year_) {
     auto dst_trans_off = TransOffset(leap_year, jan1_weekday, posix.dst_start);
     auto std_trans_off = TransOffset(leap_year, jan1_weekday, posix.dst_end);
     dst.unix_time = jan1_time + dst_trans_off - posix.std_offset;
